@@ -82,6 +82,8 @@ def versions_oracle(interp, name, args, t, body):
                 return None
             ty = body.local_ty(t['dest']['l'])
             if ty == 'bool':
+                # (which stamp the question is about is part of the question: recorded for the callers that check it)
+                interp.trace.append(('versions-asked', last_seg(name), [interp.deref_all(x) for x in args[1:]]))
                 return absint.mk_bool(interp.choose('%s.%s' % (v[1], last_seg(name))))
             if ty == '()':
                 if any((interp.deref_all(x) or ('',))[0] == 'opaque' and str(interp.deref_all(x)[1]).startswith('versions-remote') for x in args[1:]):
@@ -89,6 +91,43 @@ def versions_oracle(interp, name, args, t, body):
                 return absint.UNIT
             return ('opaque', 'versions-result')
     return None
+
+
+def shifted_stamps(interp, name, args, t, body):
+    """a stamp taken apart, its time moved by a duration, and put together again is ANOTHER stamp: `x+<what>` / `x-<what>`.  Only what
+    is needed to see which stamp a question to the version vectors is about; anything else falls through to the interpreter."""
+    seg = last_seg(name)
+    a = [interp.deref_all(x) for x in args]
+    if ('::' + TS_TY + '::') in name and a and a[0] is not None and a[0][0] == 'ts':
+        if seg == 'datacake_timestamp':
+            return ('dur', a[0][1])
+        if seg == 'counter':
+            return ('ctr', a[0][1])
+        if seg == 'node':
+            return ('nodeof', a[0][1])
+    if name.endswith('::' + TS_TY + '::new') and len(a) == 3 and all(x is not None for x in a) and a[0][0] == 'dur' and a[1][0] == 'ctr' and a[2][0] == 'nodeof':
+        base = a[1][1]
+        if a[2][1] == base and (a[0][1] == base or a[0][1].startswith(base + '+') or a[0][1].startswith(base + '-')):
+            return ('ts', a[0][1])
+        raise Unmodelled('a stamp assembled from the parts of different stamps')
+    if len(a) == 2 and a[0] is not None and a[0][0] == 'dur' and a[1] is not None:
+        what = a[1][1] if a[1][0] == 'const' else ('%ss' % a[1][1] if a[1][0] == 'durc' else None)
+        sign = None
+        if name in ('<core::time::Duration as core::ops::Add>::add', 'core::ops::arith::Add::add', 'core::ops::Add::add', 'core::time::Duration::saturating_add', 'core::time::Duration::checked_add'):
+            sign = '+'
+        if name in ('<core::time::Duration as core::ops::Sub>::sub', 'core::ops::arith::Sub::sub', 'core::ops::Sub::sub', 'core::time::Duration::saturating_sub', 'core::time::Duration::checked_sub'):
+            sign = '-'
+        if sign and what is not None:
+            v = ('dur', '%s%s%s' % (a[0][1], sign, last_seg(str(what))))
+            return mk_option(v) if seg.startswith('checked_') else v
+    if name == 'core::time::Duration::from_secs' and a and a[0] is not None and a[0][0] == 'int' and a[0][1]:
+        return ('durc', a[0][1])
+    return None
+
+
+def oracle_and_shifts(interp, name, args, t, body):
+    r = versions_oracle(interp, name, args, t, body)
+    return r if r is not None else shifted_stamps(interp, name, args, t, body)
 
 
 PRE = [('none', None, None)] + [('live', r, None) for r in '<=>'] + [('dead', None, r) for r in '<=>']
@@ -495,7 +534,7 @@ def check_diff(ctx, facts, rule):
 
             def run(choices, inp=inp, rel=rel):
                 s, o, r = inp
-                it = Interp(facts, Order(rel), opaque_call=versions_oracle)
+                it = Interp(facts, Order(rel), opaque_call=oracle_and_shifts)
                 it.choices = list(choices)
                 selfv = roles.make_set(live={'k': 's'} if s == 'live' else None, dead={'k': 's'} if s == 'dead' else None)
                 other = roles.make_set(live={'k': 'o'} if o == 'live' else None, dead={'k': 'o'} if o == 'dead' else None, versions_tag='versions-remote')
@@ -514,11 +553,24 @@ def check_diff(ctx, facts, rule):
                         raise Unmodelled('diff returns %s' % lst[0])
                     lists.append([(it.deref_all(x)[1][0].v, it.deref_all(x)[1][1].v) for x in lst[1]])
                 live, dead = roles.read_set(selfv)
-                return it.oracle_log, (lists, live.get('k'), dead.get('k'))
+                asked = [(q, x) for tr in it.trace if isinstance(tr, tuple) and tr[0] == 'versions-asked' for q in [tr[1]] for x in tr[2]
+                         if x is not None and x[0] == 'ts']
+                return it.oracle_log, (lists, live.get('k'), dead.get('k'), asked)
             for log, res in explore(run):
                 table[(inp, tuple(log))] = res
     except (Unmodelled, IndexError, TypeError) as e:
         return _fallback(ctx, rule, e)
+    # which stamp the purge cut-off is asked about: the peer's stamp itself (the stamp that is listed, and the one the apply path —
+    # will_apply — asks about), never a stamp moved in time
+    moved = sorted({(q, x[1]) for res in table.values() if res[0] != 'panic' and len(res) > 3 for q, x in res[3] if x[1] != 'o' and ('+' in x[1] or '-' in x[1])})
+    for q, x in moved:
+        ctx.ob(rule, 'diff|cut-off asked about the listed stamp', False, _site(body),
+               'diff asks the version vectors %s(..) about the stamp `%s` — the peer\'s stamp `o` moved in time — and then lists `o`: the cut-off already '
+               'allows for late operations once, and the apply path (will_apply / the mutators) asks about the stamp itself, so entries in the '
+               'window between the two answers are listed by every exchange and refused by every application (or, moved the other way, entries this '
+               'replica lacks are never listed)' % (q, x))
+    if not moved:
+        ctx.ok(rule, 'diff|cut-off asked about the listed stamp', _site(body), 'every question diff puts to the version vectors is about the peer\'s stamp as listed')
     for inp in inputs:
         s, o, r = inp
         bad = []
